@@ -22,6 +22,46 @@ CHECKS = {
         "thorough": {"gen": [G("MC_C04", "MC_C04_thorough.cfg")]},
         "require_ops": ["law.dagger_compose", "law.dagger_tensor", "law.spider_fusion", "strict.spider", "lax.spider", "strict.dagger", "lax.dagger"],
     },
+    "C07": {
+        "quick": {"gen": [G("MC_C07", "MC_C07_quick.cfg")]},
+        "thorough": {"gen": [G("MC_C07", "MC_C07_thorough.cfg")]},
+        "require_ops": ["arr.gather", "arr.scatter", "arr.argsort", "arr.connected_components", "arr.sparse_bincount", "arr.segmented_sum", "arr.get_range", "arr.sort_by"],
+    },
+    "C06": {
+        "quick": {"gen": [G("MC_C06", "MC_C06_quick.cfg")]},
+        "thorough": {"gen": [G("MC_C06", "MC_C06_thorough.cfg")]},
+        "require_ops": ["ff.compose", "ff.coequalizer", "ff.coequalizer_universal", "ff.universal_labels", "ff.injections", "ff.transpose", "ff.new"],
+    },
+    "C08": {
+        "quick": {"gen": [G("MC_C08", "MC_C08_quick.cfg")]},
+        "thorough": {"gen": [G("MC_C08", "MC_C08_thorough.cfg")]},
+        "require_ops": ["ic.new_ff", "ic.flatmap", "ic.map_indexes_ff", "ic.iter_ff", "ic.iter_sf", "ops.iter", "ic.flatmap_sources_ff", "ic.map_values"],
+    },
+    "C09": {
+        "quick": {"gen": [G("MC_Lax", "MC_C09_quick.cfg"), G("MC_Lax", "MC_C09_chains.cfg")]},
+        "thorough": {"gen": [G("MC_Lax", "MC_C09_thorough.cfg")]},
+        "require_ops": ["lax.quotient", "lax.h.quotient", "lax.unify"],
+    },
+    "C11": {
+        "quick": {"gen": [G("MC_Lax", "MC_C11_quick.cfg")]},
+        "thorough": {"gen": [G("MC_Lax", "MC_C11_quick.cfg")]},
+        "require_ops": ["lax.new_node", "lax.new_edge", "lax.new_operation", "lax.add_edge_source", "lax.add_edge_target", "lax.unify", "lax.delete_nodes", "lax.delete_edges", "lax.map_nodes", "lax.serde_roundtrip", "lax.h.delete_nodes_witness"],
+    },
+    "C10": {
+        "quick": {"gen": [G("MC_C10", "MC_C10_quick.cfg")]},
+        "thorough": {"gen": [G("MC_C10", "MC_C10_thorough.cfg")]},
+        "require_ops": ["lax.to_strict", "lax.from_strict", "lax.roundtrip_strict", "lax.roundtrip_lax", "lax.compose", "lax.lax_compose", "lax.tensor_assign", "lax.append", "lax.singleton"],
+    },
+    "C15": {
+        "quick": {"gen": [G("MC_C15", "MC_C15_quick.cfg")]},
+        "thorough": {"gen": [G("MC_C15", "MC_C15_thorough.cfg")]},
+        "require_ops": ["strict.layer", "strict.layered_operations", "hook.kahn", "hook.converse", "hook.operation_adjacency", "hook.indegree"],
+    },
+    "C17": {
+        "quick": {"gen": [G("MC_C15", "MC_C17_quick.cfg")], "profiles": ["debug", "release"]},
+        "thorough": {"gen": [G("MC_C15", "MC_C17_thorough.cfg")], "profiles": ["debug", "release"]},
+        "require_ops": ["strict.is_acyclic", "strict.is_monogamous", "hyper.in_degree", "hyper.out_degree"],
+    },
     "C01": {
         "quick": {"gen": [G("MC_C01", "MC_C01_quick.cfg")]},
         "thorough": {"gen": [G("MC_C01", "MC_C01_quick.cfg")]},
